@@ -680,6 +680,62 @@ fn judge_init(fc: &FCfg, order: (u64, u64), t: &mut Tally) {
     }
 }
 
+/// The builder is given parameters of OTHER codecs in addition to the required ones (one
+/// pipeline that sets everything it has): the sample entry must still be the configured codec's.
+fn judge_stray(idx: u64, t: &mut Tally) {
+    use muxide::api::{MuxerBuilder, VideoCodec};
+    let seq = frames::av1_seq_obu(&SeqHdr::default().normalised());
+    let mut k = 0u64;
+    for codec in oracle::frames::VCODECS {
+        for mask in 0..16u32 {
+            k += 1;
+            t.evaluations += 1;
+            let vcodec = crate::run::vcodec(codec);
+            let mut b = MuxerBuilder::new(Vec::<u8>::new()).video(vcodec, 640, 480, 30.0);
+            // required parameters
+            b = match codec {
+                VCodec::H264 => b.with_sps(frag::sps_of(codec, 10)).with_pps(frag::pps_of(codec, 4)),
+                VCodec::H265 => b.with_vps(frag::vps_of(7)).with_sps(frag::sps_of(codec, 16)).with_pps(frag::pps_of(codec, 7)),
+                VCodec::Av1 => b.with_av1_sequence_header(seq.clone()),
+                VCodec::Vp9 => b.with_vp9_config(frag::vp9cfg()),
+            };
+            // stray parameters of other codecs
+            if mask & 1 != 0 && codec != VCodec::H265 {
+                b = b.with_vps(frag::vps_of(7));
+            }
+            if mask & 2 != 0 && !matches!(codec, VCodec::H264 | VCodec::H265) {
+                b = b.with_sps(frag::sps_of(VCodec::H264, 10)).with_pps(frag::pps_of(VCodec::H264, 4));
+            }
+            if mask & 4 != 0 && codec != VCodec::Av1 {
+                b = b.with_av1_sequence_header(seq.clone());
+            }
+            if mask & 8 != 0 && codec != VCodec::Vp9 {
+                b = b.with_vp9_config(frag::vp9cfg());
+            }
+            let case = || json!({"engine": "E2-c07-stray", "codec": codec, "stray_mask": mask});
+            let r = guarded(|| b.new_with_fragment().map(|mut m| m.init_segment()));
+            let want: &[u8; 4] = match vcodec {
+                VideoCodec::H264 => b"avc1",
+                VideoCodec::H265 => b"hvc1",
+                VideoCodec::Av1 => b"av01",
+                VideoCodec::Vp9 => b"vp09",
+            };
+            match r {
+                Err(p) => t.violation("C07/init/stray/panic", (idx, k), || format!("{codec:?} stray mask {mask}: {p}"), case),
+                Ok(Err(e)) => t.violation("C07/init/stray/rejected", (idx, k), || format!("{codec:?} with all required parameters plus stray ones (mask {mask}) was rejected: {e}"), case),
+                Ok(Ok(init)) => {
+                    let m = parse_movie(&init, "init");
+                    t.outcome(oracle::report::h64(&init));
+                    let got = first_entry(&m, true).map(|e| e.format);
+                    if got != Some(*want) {
+                        t.violation("C07/init/stray/fourcc", (idx, k), || format!("{codec:?} with stray parameters of other codecs (mask {mask}: 1=VPS 2=SPS/PPS 4=AV1 header 8=VP9 config) produced sample entry {:?}", got.map(|f| oracle::reader::fcc(&f))), case);
+                    }
+                }
+            }
+        }
+    }
+}
+
 // ---------------------------------------------------------------------------------------------
 
 enum Item {
@@ -688,6 +744,7 @@ enum Item {
     Vp9(Vec<Vp9Hdr>),
     Audio(Vec<(ACodec, u32, u16)>),
     Init(Vec<FCfg>),
+    Stray,
 }
 
 fn unit_lists(n_alpha: usize, max: usize) -> Vec<Vec<usize>> {
@@ -753,6 +810,7 @@ pub fn check(ctx: &Ctx) -> i32 {
     }
     let n_init = inits.len();
     items.push(Item::Init(inits));
+    items.push(Item::Stray);
 
     let tally = par_items(&items, ctx.seed, |idx, it, t| match it {
         Item::Nal(codec, lists) => {
@@ -794,6 +852,7 @@ pub fn check(ctx: &Ctx) -> i32 {
                 judge_init(fc, (idx as u64, k as u64), t);
             }
         }
+        Item::Stray => judge_stray(idx as u64, t),
     });
     let mut tally = tally;
     tally.sample(3, || json!({"av1_header_example": format!("{:?}", SeqHdr::default().normalised()), "payload": hex(&SeqHdr::default().normalised().payload())}));
